@@ -352,6 +352,14 @@ fn string_from_attrs(param: &abi_ast::Param, emitter: &dyn Emitter) -> Result<Op
         let size = {
             let user_len = de.accept_value::<u32>("len")?;
             let user_bs = de.accept_value::<u32>("bs")?;
+            if let Some(bs) = &user_bs {
+                if bs.value == 0 {
+                    return Err(emitter.as_sized().emit(error!(
+                        message("'bs' attribute of '{}' must be nonzero", param.format_char),
+                        primary(bs, ""),
+                    )));
+                }
+            }
             match (user_len, user_bs, is_len_prefixed) {
                 (None, Some(bs), LenPrefixed(false)) => StringArgSize::ToBlobEnd {
                     block_size: bs.value as _,
